@@ -100,9 +100,34 @@ def _call(args):
                                     {"__fn__": fname, "__case__": case})], "n": 1}
         return case, {"harness_error": f"{e.name}: {e.text}\n{e.tb}"}
     except CaseTimeout:
-        # an operation of the library did not terminate on an input the unchanged tree handles
-        return case, {"viol": [("library-does-not-terminate", f"no result after {limit}s",
-                                {"__fn__": fname, "__case__": case})], "n": 1}
+        # no result within the limit: either an operation of the library does not terminate, or the machine
+        # is busy. Run the case once more, alone in a fresh child, with three times the limit; only a second
+        # timeout is reported (a case that merely was slow comes back with its result, marked as such).
+        from .world import session_root
+
+        flag = os.path.join(session_root(), "hang-confirmed")
+        if os.path.exists(flag):
+            # (a hang was already confirmed by an extended re-run in this session: do not pay for it again)
+            return case, {"viol": [("library-does-not-terminate", f"no result after {limit}s",
+                                    {"__fn__": fname, "__case__": case})], "n": 1}
+        try:
+            res = _isolated(fn, case, 3 * limit)
+            if isinstance(res, dict):
+                res.setdefault("vac", {})
+                res["vac"]["cases_that_needed_the_extended_time_limit"] = 1
+            return case, res
+        except CaseTimeout:
+            with open(flag, "w") as fh:
+                fh.write(repr(case)[:500])
+            return case, {"viol": [("library-does-not-terminate", f"no result after {limit}s and again after {3 * limit}s",
+                                    {"__fn__": fname, "__case__": case})], "n": 1}
+        except _ChildRaised as e:
+            if e.lib is not None:
+                return case, {"viol": [(f"library-raises-{e.name}@{e.lib}", e.tb[-1500:],
+                                        {"__fn__": fname, "__case__": case})], "n": 1}
+            return case, {"harness_error": f"{e.name}: {e.text}\n{e.tb}"}
+        except BaseException as e:  # noqa: BLE001
+            return case, {"harness_error": f"{type(e).__name__}: {e}\n{traceback.format_exc()}"}
     except BaseException as e:  # noqa: BLE001
         lib = _library_frame(e)
         if lib is not None:
@@ -227,7 +252,7 @@ class Ctx:
         )
 
     # ---- result handling
-    def absorb(self, case, res):
+    def absorb(self, case, res, fname=None):
         if "harness_error" in res:
             self.harness_errors.append((case, res["harness_error"]))
             return
@@ -256,28 +281,28 @@ class Ctx:
         for v in res.get("viol") or ():
             sig, detail = v[0], v[1]
             vcase = v[2] if len(v) > 2 else case
-            self.violation(sig, vcase, detail)
+            self.violation(sig, vcase, detail, enclosing=(fname, case) if fname else None)
         s = res.get("sample")
         if s is not None and len(self.samples) < 6:
             self.samples.append(s)
 
-    def violation(self, sig, case, detail):
+    def violation(self, sig, case, detail, enclosing=None):
         ent = self.viol.get(sig)
         if ent is None:
-            self.viol[sig] = {"case": case, "detail": detail, "count": 1}
+            self.viol[sig] = {"case": case, "detail": detail, "count": 1, "enclosing": enclosing}
         else:
             ent["count"] += 1
             # keep the smallest case for the replay file
             if len(json.dumps(case, default=str)) < len(
                 json.dumps(ent["case"], default=str)
             ):
-                ent["case"], ent["detail"] = case, detail
+                ent["case"], ent["detail"], ent["enclosing"] = case, detail, enclosing
 
     def run_cases(self, fname, cases, chunksize=None, det=20, sample_every=None):
         cases = list(cases)
         first = {}
         for case, res in self.pmap(fname, cases, chunksize):
-            self.absorb(case, res)
+            self.absorb(case, res, fname)
             if det and len(first) < 10_000:
                 first[json.dumps(case, sort_keys=True, default=str)] = res
         if det:
@@ -290,7 +315,7 @@ class Ctx:
         want = {json.dumps(c, sort_keys=True, default=str) for c in cases[:det]}
         first, out = {}, []
         for case, res in self.pmap(fname, cases):
-            self.absorb(case, res)
+            self.absorb(case, res, fname)
             out.append((case, res))
             k = json.dumps(case, sort_keys=True, default=str)
             if k in want:
@@ -330,6 +355,7 @@ class Ctx:
             # confirm from the replay artefact before reporting
             path = self.write_replay(sig, ent)
             confirmed = None
+            tmo = int(getattr(mod, "CASE_TIMEOUT", 900))
             if hasattr(mod, "replay"):
                 try:
                     _worker_init()
@@ -337,7 +363,7 @@ class Ctx:
                     if sig == "library-does-not-terminate":
                         fn = getattr(mod, ent["case"]["__fn__"])
                         try:
-                            _isolated(fn, ent["case"]["__case__"], tmo)
+                            _isolated(fn, ent["case"]["__case__"], 3 * tmo)
                             confirmed = False
                         except CaseTimeout:
                             confirmed = True
@@ -355,6 +381,22 @@ class Ctx:
                 except BaseException as e:  # noqa: BLE001
                     confirmed = False
                     ent["detail"] = f"{ent['detail']} (replay raised {e!r})"
+            enc = ent.get("enclosing")
+            if confirmed is False and enc and enc[1] != ent["case"] and hasattr(mod, enc[0]):
+                # the single operation does not reproduce on its own: run the whole enclosing case (the
+                # sequence of operations one worker process performed) in a fresh child. If the signature
+                # comes back, the library's answer depends on what the process did before - state carried
+                # over between independent operations - and the enclosing case is the replayable artefact.
+                try:
+                    res2 = _isolated(getattr(mod, enc[0]), enc[1], tmo)
+                    if any(v[0] == sig for v in (res2.get("viol") or ())):
+                        confirmed = True
+                        ent["detail"] = (f"{ent['detail']} [reproduces only inside its enclosing case {enc[0]}: the "
+                                         "outcome depends on operations performed earlier in the same process]")
+                        ent["replay_enclosing"] = True
+                        path = self.write_replay(sig, ent)
+                except BaseException as e:  # noqa: BLE001
+                    ent["detail"] = f"{ent['detail']} (enclosing-case replay raised {e!r})"
             if confirmed is False:
                 self.harness_errors.append(
                     (ent["case"], f"violation {sig} did not reproduce on replay")
@@ -455,6 +497,8 @@ class Ctx:
                     "signature": sig,
                     "detail": ent["detail"],
                     "case": ent["case"],
+                    "enclosing": ({"fn": ent["enclosing"][0], "case": ent["enclosing"][1]}
+                                  if ent.get("replay_enclosing") else None),
                     "cases_with_this_signature": ent["count"],
                     "how_to_replay": f"cd /verif && /venv/bin/python -m mc replay {path}",
                 },
@@ -502,6 +546,11 @@ def replay_file(path):
                 return 1
             return 0
     got = mod.replay(rep["case"])
+    if rep.get("enclosing") and not any(v[0] == rep["signature"] for v in got):
+        # reproduces only as part of the sequence of operations its worker process performed
+        enc = rep["enclosing"]
+        print(f"single operation is clean on its own; replaying the enclosing case {enc['fn']}")
+        got = [(v[0], v[1]) for v in (getattr(mod, enc["fn"])(enc["case"]).get("viol") or ())]
     print(f"replaying {rep['property']} signature={rep['signature']}")
     print("case:", json.dumps(rep["case"])[:2000])
     hit = False
